@@ -232,6 +232,12 @@ class Formatter:
 
     def value(self, json, prec=precedence["from"]):
         parts = [self.dispatch(json["value"], prec)]
+        if "within" in json:
+            # WITHIN GROUP (
+            #             ORDER BY public.persentil.sale
+            #           )
+            ob = self.orderby(json["within"], 100)
+            parts.append(f"WITHIN GROUP ({ob})")
         if "filter" in json:
             parts.append(f"FILTER (WHERE {self.dispatch(json['filter'])})")
         if "over" in json:
@@ -288,12 +294,6 @@ class Formatter:
 
             window = " ".join(window)
             parts.append(f"({window})")
-        if "within" in json:
-            # WITHIN GROUP (
-            #             ORDER BY public.persentil.sale
-            #           )
-            ob = self.orderby(json["within"], 100)
-            parts.append(f"WITHIN GROUP ({ob})")
         if "name" in json:
             parts.extend(["AS", self.dispatch(json["name"])])
         if "tablesample" in json:
